@@ -1143,7 +1143,13 @@ fn run_request(w: &mut World<'_>, ri: usize, req: &Req, shape: &str) {
             // Whatever failed on the way: a REMOVAL cookie tells the client that the session is over,
             // so the record must be gone by now (a store that could not delete it makes the request
             // fail instead, and no cookie goes out).
-            if let (Some(c), Some(old)) = (session_cookie.as_ref().filter(|c| c.removal), rm.presented.clone()) {
+            // (Not judged when the injected fault was a store that ANSWERED WRONGLY — a stale "no such
+            // record" to a load: a session that was told there is no record has nothing to delete, and after
+            // `cycle_id(); sync()` it has rightly forgotten the old id. The clause is about stores that fail,
+            // not about stores that lie; found by the thorough tier, 22 runs in 20 million.)
+            if fired_stale && session_cookie.as_ref().map(|c| c.removal).unwrap_or(false) {
+                w.out.count("removal_cookie_after_a_stale_answer_not_judged", 1);
+            } else if let (Some(c), Some(old)) = (session_cookie.as_ref().filter(|c| c.removal), rm.presented.clone()) {
                 w.out.count("removal_cookie_after_fault_checked", 1);
                 if let Some(m) = w.peek_live(&old) {
                     w.out.violations.push(viol("C11", "invalidate", format!("removal cookie although the record survives (store fault) {shape}"), format!("req{ri}: a store call failed, the response nevertheless carries the removal cookie `{}`, and the store still serves {m:?} under the old id", c.name)));
